@@ -16,6 +16,7 @@ import TrVerif.Props.C12Shift
 import TrVerif.Props.C12MapStatus
 import TrVerif.Props.C12
 import TrVerif.Props.C12Full
+import TrVerif.Props.C12FullRev
 namespace Tr
 
 def nvDs : Dataset :=
